@@ -6,7 +6,7 @@ xar, pgp); emitted artifacts verified and the named leaf compared with the key t
 import json, os
 from vlib.common import *
 
-NEG = ["NoSameKey", "TypeOnlySameKey", "LeafNotFirst", "PgpUnchecked", "SameXOnly", "CacheBySource"]
+NEG = ["NoSameKey", "TypeOnlySameKey", "LeafNotFirst", "PgpUnchecked", "PgpSkippedBesideX509", "SameXOnly", "CacheBySource"]
 
 
 def run(t):
